@@ -1,14 +1,18 @@
 """C04 — deterministic targets: result is the best evaluated point, reported truthfully."""
-from harness import runlevel as R, skel as S
+from harness import comp_loop as L, runlevel as R, skel as S
 
-PROPS = "Props/C04.v"
-THEOREMS = ["C04_result_is_best_evaluated", "C04_history_monotone", "C04_history_rows_evaluated", "C04_never_worse_than_start", "C04_nondefault_refuted"]
+PROPS = ["Props/C04.v", "Props/C13loop.v"]
+TRANSLATORS = ["loop"]
+THEOREMS = ["C04_result_is_best_evaluated", "C04_history_monotone", "C04_history_rows_evaluated", "C04_never_worse_than_start", "C04_nondefault_refuted",
+            # Props/C13loop.v: when the incumbent moves (search and poll) equals gen/Src_loop.v, regenerated from _search_step_ / _poll_step_
+            "C04_improvement_rule_is_source"]
 LEVEL = "proof"
 RULE = ("deterministic real runs (smooth, non-smooth, plateau with ties, optimum on/outside the boundary; transforms; constraints) compared with the "
         "skeleton model incl. the incumbent after every loop iteration, AND the oracle side conditions det_ok evaluated in Coq on every event; "
         "non-trivial = the incumbent moved at least twice")
 TRUSTED = ["Coq 8.16.1 kernel + vm_compute", "hand-written model Model/Skeleton.v tied per loop iteration to real runs",
            "side conditions Model/SkeletonValid.v (sign/order of the float improvement agrees with the order of the values; estimate = observed value, SD 0) are checked on every recorded event, not proved: IEEE rounding is outside the model — in particular absorption (|fval| >= 2^53 * |difference|) can make two different values indistinguishable to _eval_improvement_",
+           "translate/loop.py regenerates the decision logic of optimize() / _search_step_ / _poll_step_ on every run (gen/Src_loop.v; fail-closed ast whitelist, writer and call-site census over the package); validated each run: the generated definitions evaluated by Coq on every recorded loop iteration of this panel (harness/comp_loop.py)",
            "result.x = inverse_transf(final u) and result.fval = final fval are compared by the tie"]
 ASSUMPTIONS = ["default incumbent policy (sloppy_improvement = True, stobads = False), improvement_quantile = 0.5"]
 
@@ -45,6 +49,8 @@ def tie(ctx, broken):
     out = R.tie_skeleton(ctx, broken, [(s, None) for s in specs_for(ctx)], "c04")
     R.count_runs(ctx, out, lambda tr, P: sum(1 for e in tr["events"] if e[0] == "update_incumbent") >= 2)
     R.apply_monitor(ctx, out, R.mon_c04)
+    L.tie_loop(ctx, broken, out, "c04")                 # gen/Src_loop.v on every recorded iteration (translator validation)
+    R.apply_monitor(ctx, out, L.mon_loop)
     # result fields vs the model's final incumbent (the model's final cur is compared in the tie; here result.* vs last probe)
     badres = [tr["spec"] for tr, P in out if "result" in tr and P is not None and P["expect"]
               and not (tr["result"]["fval"] == P["expect"][-1]["f"] and tr["final"]["inv_u"] == tr["result"]["x"])]
@@ -53,6 +59,8 @@ def tie(ctx, broken):
 
 
 def search(ctx, broken):
+    if L.search_loop(ctx, broken, [R.mon_c04, R.mon_c13]):
+        return True
     if R.truncate_search(ctx, R.mon_c04):
         return True
     specs = [s for s in S.panel("thorough", ctx.seed + 23) if s["noise"] == "det"][:40]
@@ -61,4 +69,4 @@ def search(ctx, broken):
 
 
 def replay(ctx, rp):
-    return R.generic_replay(ctx, rp, [R.mon_c04])
+    return R.generic_replay(ctx, rp, [R.mon_c04, L.mon_loop])
